@@ -1,6 +1,8 @@
 package main
 
 import (
+	"sort"
+	"os"
 	"bytes"
 	"encoding/json"
 	"fmt"
@@ -135,11 +137,11 @@ func runC12(idx int, rng *rand.Rand, tier string) []Case {
 			bs = genBounds(rng)
 		}
 		lats := genLats(rng, bs, lowOK)
-		return []Case{c12Add(bs, lats, class)}
+		return []Case{c12Add(idx, bs, lats, class)}
 	}
 }
 
-func c12Add(bs, lats []int64, class string) Case {
+func c12Add(idx int, bs, lats []int64, class string) Case {
 	var c Case
 	w := &c.W
 	w.Z(1)
@@ -237,8 +239,51 @@ func c12Add(bs, lats []int64, class string) Case {
 		}
 		m.Close()
 	}()
+	counts3 := h3.Counts
+	viaCLI := false
+	if viaMetrics && idx%3 == 1 && len(bs) > 1 && bs[0] == 0 && len(lats) > 0 && len(lats) <= 3000 {
+		inc := true
+		for i := 1; i < len(bs); i++ {
+			if bs[i] <= bs[i-1] {
+				inc = false
+			}
+		}
+		if inc {
+			// the same results as a gob file through `vegeta report -type json -buckets [...]`
+			var buf bytes.Buffer
+			enc := vegeta.NewEncoder(&buf)
+			for i, l := range lats {
+				r := vegeta.Result{Code: 200, Latency: time.Duration(l), Timestamp: time.Unix(1600000000, int64(i)*1000)}
+				if i%3 == 1 {
+					r.Code, r.Error = 500, []string{"500 Internal Server Error", "EOF"}[i%2]
+				}
+				enc.Encode(&r)
+			}
+			f := writeTemp(idx, "c12.gob", buf.Bytes())
+			defer os.Remove(f)
+			parts := make([]string, len(bs))
+			for i, b := range bs {
+				parts[i] = fmt.Sprintf("%dns", b)
+			}
+			out, err := runCLI(nil, "report", "-type", "json", "-buckets", "["+strings.Join(parts, ",")+"]", f)
+			if err == nil {
+				var rep struct {
+					Buckets json.RawMessage `json:"buckets"`
+				}
+				if json.Unmarshal(out, &rep) == nil {
+					pairs := parseOrderedJSONPairs(rep.Buckets)
+					sort.Slice(pairs, func(i, j int) bool { return pairs[i][0] < pairs[j][0] })
+					counts3 = counts3[:0:0]
+					for _, p := range pairs {
+						counts3 = append(counts3, uint64(p[1]))
+					}
+					viaCLI = true
+				}
+			}
+		}
+	}
 	w.Bool(viaMetrics)
-	w.Us(h3.Counts)
+	w.Us(counts3)
 	c.Tag = class
 	if len(lats) == 0 {
 		c.Tag = class + ".empty"
@@ -246,7 +291,7 @@ func c12Add(bs, lats []int64, class string) Case {
 	if len(lats) > 0 && len(bs) > 1 {
 		c.Tag += ";nt"
 	}
-	c.Dist = fmt.Sprintf("add/%s/b%d/n%d", class, sizeClass(len(bs)), sizeClass(len(lats)))
+	c.Dist = fmt.Sprintf("add/%s/b%d/n%d/cli=%v", class, sizeClass(len(bs)), sizeClass(len(lats)), viaCLI)
 	c.Sample = map[string]interface{}{"kind": "add", "buckets": bs, "latencies": clip(lats, 12), "counts": h.Counts, "total": h.Total}
 	return c
 }
@@ -417,8 +462,8 @@ func c12Unmarshal(rng *rand.Rand) []Case {
 }
 
 var c12Corpus = []func() Case{
-	func() Case { return c12Add([]int64{0, 10}, nil, "dom") },                 // nothing added
-	func() Case { return c12Add([]int64{0, 10, 20}, []int64{0, 9, 10, 19, 20, 1 << 40}, "dom") },
-	func() Case { return c12Add([]int64{5}, []int64{5, 6, 7}, "dom") },
-	func() Case { return c12Add(nil, []int64{1}, "nobuckets") },
+	func() Case { return c12Add(3, []int64{0, 10}, nil, "dom") },                 // nothing added
+	func() Case { return c12Add(3, []int64{0, 10, 20}, []int64{0, 9, 10, 19, 20, 1 << 40}, "dom") },
+	func() Case { return c12Add(3, []int64{5}, []int64{5, 6, 7}, "dom") },
+	func() Case { return c12Add(3, nil, []int64{1}, "nobuckets") },
 }
